@@ -127,10 +127,16 @@ type table struct {
 // ones of the raw inputs through the table API, so that the stored Go value is known
 // exactly. fail reports a harness problem; skipped is called for every input that is not
 // storable. The caller drops the table.
-func (w *wireFixture) store(c colType, raws []any, fail func(string, ...any), skipped func()) *table {
+func (w *wireFixture) store(c colType, notNull bool, raws []any, fail func(string, ...any), skipped func()) *table {
 	w.nextID++
 	name := fmt.Sprintf("w%d", w.nextID)
-	if err := w.exec(fmt.Sprintf("CREATE TABLE %s (id INT PRIMARY KEY, c %s)", name, c.ddl)); err != nil {
+	ddl := c.ddl
+	if notNull {
+		// changes the flags of the field packet (NOT_NULL_FLAG next to UNSIGNED_FLAG etc.; vitess
+		// derives default flags from the type only when the handler sends none at all)
+		ddl += " NOT NULL"
+	}
+	if err := w.exec(fmt.Sprintf("CREATE TABLE %s (id INT PRIMARY KEY, c %s)", name, ddl)); err != nil {
 		fail("create table with %s: %v", c.ddl, err)
 	}
 	ctx := w.ctx()
@@ -236,9 +242,11 @@ func (w *wireFixture) readBack(apiCtx *sql.Context, tb *table) (vs []viol, good 
 		case []byte:
 			checkText(proto, i, x, -1)
 		default:
-			v2, _, err := col.typ.Convert(apiCtx, x)
-			if err != nil {
-				add("", "%s over %s: stored %s, received %s; it does not convert back: %v", col.ddl, proto, show(v), show(x), err)
+			// (a number outside the column type's range cannot denote a stored value; Convert
+			// would wrap it, e.g. a BIGINT UNSIGNED above 2^63 delivered as a negative int64)
+			v2, inRange, err := col.typ.Convert(apiCtx, x)
+			if err != nil || inRange != sql.InRange {
+				add("", "%s over %s: stored %s, received %s; it does not convert back into the column type (in range: %v, error: %v)", col.ddl, proto, show(v), show(x), inRange == sql.InRange, err)
 				return
 			}
 			if same, err := col.same(apiCtx, v, v2); !same {
@@ -290,7 +298,8 @@ func TestC28Wire(t *testing.T) {
 		st.Eval()
 		c := pool[rapid.IntRange(0, len(pool)-1).Draw(rt, "type")]
 		raws := rapid.SliceOfN(c.gen, 1, 6).Draw(rt, "values")
-		tb := w.store(c, raws, rt.Fatalf, func() { st.Class("not-storable:" + c.kind) })
+		notNull := rapid.Bool().Draw(rt, "notNull")
+		tb := w.store(c, notNull, raws, rt.Fatalf, func() { st.Class("not-storable:" + c.kind) })
 		defer w.drop(tb)
 		if len(tb.stored) == 0 {
 			return
